@@ -122,6 +122,22 @@ func (x *Exec) doCall(st *State, in *ssa.Call) (forks []*State, done bool) {
 func (x *Exec) callStatic(st *State, in *ssa.Call, fv *FuncV, args []Value) (forks []*State, done bool) {
 	fr := st.frame()
 	callee := fv.Fn
+	if callee == x.fn && x.spec != nil && x.spec.BoundD > 0 {
+		// bounded mode: self-recursion is inlined up to the stated depth, deeper paths are cut
+		occ := 0
+		for _, f := range st.frames {
+			if f.fn == callee {
+				occ++
+			}
+		}
+		if occ > x.spec.BoundD {
+			x.cuts++
+			st.dead = true
+			return nil, true
+		}
+		x.pushFrame(st, fv, args, in)
+		return nil, false
+	}
 	if k := x.contractFor(callee); k != nil && !k.Inline {
 		x.curCallee = callee
 		fr.vals[in] = x.applyContract(st, in, k, callee.Signature, funcKey(callee), paramNames(callee, k), args)
@@ -413,7 +429,10 @@ func (x *Exec) applyContract(st *State, in *ssa.Call, k *FuncSpec, sig *types.Si
 		}
 	}
 	// havoc
-	if !k.HasMod {
+	if !k.HasMod && k.Kind == "func" && x.curCallee != nil && x.curCallee.Blocks != nil {
+		// an in-repo contract without a modifies clause: the callee's SSA write footprint
+		x.havocFootprint(st, x.curCallee)
+	} else if !k.HasMod {
 		x.havocAll(st, calleeName)
 	} else {
 		x.havocLocs(st, env, k.Modifies)
